@@ -160,6 +160,63 @@ def different_files(run, sc, i):
     return True
 
 
+def dir_listing(run, sc, i):
+    """one call parses a file while another call parses *another* file of the same directory through the directory entry
+    point with a namespace filter (parse_xml_dir(dir, [its model URI])): the listing call sees the first call's side file
+    come and go in the directory; each returns what it returns when run alone"""
+    from opcua_tools import nodeset_parser as npm
+    rng = run.rng
+    ca, cb = 900 + 2 * i, 901 + 2 * i
+
+    def setup(tag):
+        d = sc.sub(tag)
+        open(os.path.join(d, "a.xml"), "w", encoding="utf-8").write(PR.doc_text(ca))
+        open(os.path.join(d, "b.xml"), "w", encoding="utf-8").write(PR.doc_text(cb))
+        return d
+
+    def calls(d):
+        return [lambda: npm.parse_xml(os.path.join(d, "a.xml")), lambda: npm.parse_xml_dir(d, ["urn:c%d" % cb])]
+
+    # alone, one after the other
+    d0 = setup("dl%d_lone" % i)
+    lone = []
+    for fn in calls(d0):
+        ctl = PR.Ctl()
+        with PR.Patched(ctl):
+            o, res = PR.outcome_of(fn, ctl)
+        lone.append(({k: v for k, v in o.items() if k != "exc"}, PR.fingerprint(res) if res is not None else None))
+    shutil.rmtree(d0, ignore_errors=True)
+    d = setup("dl%d" % i)
+    before = PR.snapshot(d)
+    # the listing call starts while the other one is somewhere inside its protocol
+    k = rng.randint(1, 9)
+    schedule = [0] + [0] * k + [1] + [rng.randrange(2) for _ in range(30)]
+    ctl = PR.Ctl()
+    sch = PR.Scheduler(2)
+    ctl.sched = sch
+    with PR.Patched(ctl):
+        results = sch.run(calls(d), schedule, ctl)
+    got = []
+    for t, (kind, val) in enumerate(results):
+        if kind == "ok":
+            got.append((PR.canon_result(val), PR.fingerprint(val)))
+        else:
+            def rethrow(e=val):
+                raise e
+            o, _ = PR.outcome_of(rethrow, ctl, t)
+            got.append(({k_: v for k_, v in o.items() if k_ != "exc"}, None))
+    case = {"kind": "file + directory listing", "contents": [ca, cb], "listing_call_starts_after": k, "executed": [[t, op] for t, op in sch.executed]}
+    run.case({"dir_listing": i, "executed": case["executed"]}, nontrivial=interleaved(sch.executed), tag="threads:dir-listing")
+    problems = ["call %d: %r, alone: %r" % (t, got[t][0], lone[t][0]) + ("" if got[t][0] != lone[t][0] else " (tables differ)") for t in range(2) if got[t] != lone[t]]
+    if PR.snapshot(d) != before:
+        problems.append("directory %r -> %r" % (sorted(before), sorted(PR.snapshot(d))))
+    shutil.rmtree(d, ignore_errors=True)
+    if problems:
+        run.violation(case, {"what": "; ".join(problems), "calls": "parse_xml(dir/a.xml)  ||  parse_xml_dir(dir, [model URI of b.xml])"})
+        return False
+    return True
+
+
 # the proved schedules, preceded by the two "begin" stops that start the calls
 WITNESSES = [
     ("same_file_missing", [0, 1] + [0, 0, 0, 0, 0, 1, 0, 0, 1, 1]),
@@ -251,6 +308,9 @@ def explore(run):
                 return
         for i in range(1000 if thorough else 80):
             if not same_file(run, sc, i):
+                return
+        for i in range(200 if thorough else 12):
+            if not dir_listing(run, sc, i):
                 return
         for i in range(6 if thorough else 1):
             if not processes(run, sc, i, 4 if thorough else 3, 10 if thorough else 3):
